@@ -267,3 +267,38 @@ Proof.
   intros H. unfold current_round, next_round.
   destruct (Z.ltb_spec now g); [|lia]. split; reflexivity.
 Qed.
+
+(* the current round never decreases when the clock advances (before genesis or within 2^50 s) *)
+Definition now_dom (g now : Z) := now < g \/ dom_t g now.
+
+Lemma current_round_ge_1 now p g : dom_p p -> dom_g g -> now_dom g now -> 1 <= current_round now p g.
+Proof.
+  intros Hp Hg [H|H].
+  - destruct (before_genesis now p g H) as [_ ->]. lia.
+  - rewrite current_round_spec by assumption. destruct H, Hp.
+    assert (0 <= (now - g) / p) by (apply Z.div_pos; lia). lia.
+Qed.
+
+Theorem current_round_mono a b p g : dom_p p -> dom_g g -> now_dom g a -> now_dom g b -> a <= b ->
+  current_round a p g <= current_round b p g.
+Proof.
+  intros Hp Hg [Ha|Ha] Hb Hab.
+  - destruct (before_genesis a p g Ha) as [_ ->]. apply current_round_ge_1; assumption.
+  - destruct Hb as [Hb|Hb]; [destruct Ha; lia|].
+    rewrite !current_round_spec by assumption. destruct Hp.
+    assert ((a - g) / p <= (b - g) / p) by (apply Z.div_le_mono; lia). lia.
+Qed.
+
+(* a round at or below the current one is not in the future *)
+Theorem round_le_current_timely bits now p g r : bits = 36 -> dom_p p -> dom_g g -> dom_t g now ->
+  1 <= r <= current_round now p g -> time_of_round bits p g r <= now.
+Proof.
+  intros Hb Hp Hg Ht [Hr1 Hr2].
+  rewrite current_round_spec in Hr2 by assumption.
+  destruct Ht as [Ht1 Ht2]. pose proof Hp as [Hp1 Hp2].
+  set (q := (now - g) / p) in *.
+  assert (Hq : 0 <= q) by (apply Z.div_pos; lia).
+  assert (Hqp : p * q <= now - g) by (apply Z.mul_div_le; lia).
+  rewrite (time_of_round_exact_small bits) by (assumption || lia || nia).
+  unfold ideal. nia.
+Qed.
